@@ -1159,6 +1159,9 @@ class Gen(object):
                 (r.random() < 0.5 or not (set(self.p.faults) & {'F3', 'F4'})):
             # F8: the handler writes to the object it is notified about, mid-write
             o = self.w.slots[i].obj
+            if r.random() < 0.3:
+                op['selfreset'] = True        # ... or resets it ("count and re-arm")
+                return op
             op['selfwrite'] = self.val_like_obj(o, kind=r.choice(['hi+', 'lo-', 'inexact', 'exact', 'far', 'tie', None]))
             op['via'] = r.choice(['call', 'set_val'])
             return op
